@@ -36,6 +36,9 @@ RULE = ('cases: one structure (Obs / list / ndarray of 0-4 dimensions / Corr N=1
         'pickle; alias cases: the same Obs at several positions of a list / array / Corr / dict / file / frame; inputs as int32 / int64 / list / range lists, '
         'strided sample and fluctuation arrays, Fortran / transposed / negative-stride object arrays, Corr from list / 1-d / 3-d array / array of Corr / views, '
         'covariance as scalar / 1-d / 2-d list or array with entries 1e-240..1e240 and gradients 1e-70..1e70; T = 1, empty dicts, zero-length description; '
+        'reject kind: members with equal names / first / last / length and different interior in one structure must be refused; bulk kind: 12-103 members, T up to 101, '
+        '12 / 101 structures per file, dicts with 11-101 structures; configuration numbers beyond 2**31; spectators (coefficient exactly 0, zero gradient entries); '
+        'second write of the same object gives the same document; counters j:<mechanism> report how often each judgement ran; '
         'every write is followed by an argument-untouched judgement and every read by a no-shared-memory judgement; '
         'non-trivial: the round trip completed and at least one compared observable carries a Monte-Carlo chain with non-zero fluctuations '
         'or a covariance input; distinct = digest of (deep digest of the structure, transport, options)')
@@ -162,9 +165,9 @@ def teardown(ctx):
 
 
 def plan(tier):
-    m = 1 if tier == 'quick' else 30
-    return [('obs', 270 * m), ('list', 180 * m), ('array', 210 * m), ('corr1', 180 * m), ('corrN', 100 * m), ('multi', 90 * m),
-            ('dict', 140 * m), ('frame', 120 * m), ('pickle', 110 * m), ('rew', 120 * m), ('edge', 150 * m), ('history', 80 * m), ('alias', 70 * m)]
+    m = 1 if tier == 'quick' else 20
+    return [('obs', 220 * m), ('list', 150 * m), ('array', 170 * m), ('corr1', 150 * m), ('corrN', 90 * m), ('multi', 80 * m),
+            ('dict', 140 * m), ('frame', 200 * m), ('pickle', 160 * m), ('rew', 120 * m), ('edge', 150 * m), ('history', 160 * m), ('alias', 70 * m), ('reject', 60 * m), ('bulk', 40 * m)]
 
 
 # ------------------------------------------------------------------------------------------
@@ -463,7 +466,7 @@ def compare(ctx, rng, got, orig, prof, label, opts, separate=False):
             break
     if ok:
         # error analysis of original and copy (a few members per structure)
-        todo = [pairs[i] for i in rng.permutation(len(pairs))[:2]] if pairs else []
+        todo = [pairs[i] for i in rng.permutation(len(pairs))[:(4 if prof.fam in ('pickle', 'jsondict') else 2)]] if pairs else []
         for w in todo:
             o, r = find(orig, w), find(got, w)
             sn = rt_io.snap(o)
@@ -653,6 +656,12 @@ def run_json(ctx, rng, x, what, support, transport, tmp):
     got, exp, separate = res
     post_checks(ctx, x, frozen, got, 'json')
     compare(ctx, rng, got, exp, P_JSON, transport, opts, separate=separate)
+    if rng.random() < 0.25 and MON.docs:
+        # the same argument object handed to the writer a second time gives the same document (header apart)
+        first = MON.docs[-1]
+        second = JIO.create_json_string(x, indent=1 if (transport == 'method' and (is_obs(x) or is_corr(x))) else opts.get('indent', 1))
+        ctx.require(first.split('"obsdata"', 1)[-1] == second.split('"obsdata"', 1)[-1], 'json:second-write-of-the-same-object-differs',
+                    {'len_first': len(first), 'len_second': len(second)})
     ctx.sample({'structure': what, 'support': support, 'transport': opts, 'members': sum(1 for _ in walk_obs(x)),
                 'chains': sorted(set(n for o in walk_obs(x) for n in o.names))})
 
@@ -762,7 +771,7 @@ def frame_read(ctx, fn, auto_gamma, short_lists):
 
 def run_frame(ctx, rng, support, transport, tmp):
     import pandas as pd
-    nrows = int(rng.integers(1, 4))
+    nrows = int(rng.integers(1, 4)) if rng.random() < 0.9 else int(rng.integers(11, 14))     # rows are numbered: also more than 10
     cols = {}
     cols['id'] = [int(i) for i in rng.permutation(50)[:nrows]]
     cols['label'] = [str(rng.choice(['x', 'NA', 'null', 'a,b', 'q"uote', 'line\nbreak', 'ü'])) for _ in range(nrows)]
@@ -773,7 +782,14 @@ def run_frame(ctx, rng, support, transport, tmp):
     if not kinds:
         kinds = ['obs']
     for what in kinds:
-        cols['c_' + what] = [make_structure(ctx, rng, what, support) for _ in range(nrows)]
+        if nrows > 10:
+            fam = family(ctx, rng, support, big=True)
+            cols['c_' + what] = [fam.member() if what == 'obs' else [fam.member() for _ in range(2)] if what == 'list' else
+                                 make_corr(ctx, rng, support, 1 if what == 'corr1' else 2, fam=fam, spec=(2, set(), [0, 0])) for _ in range(nrows)]
+        else:
+            cols['c_' + what] = [make_structure(ctx, rng, what, support) for _ in range(nrows)]
+    if 'list' in kinds and rng.random() < 0.5:
+        cols['c_list'][int(rng.integers(0, nrows))] = make_list(ctx, rng, support, n=1)       # the one-element list cell
     order = [str(c) for c in rng.permutation(list(cols))]
     df = pd.DataFrame({c: cols[c] for c in order})
     gz = transport.endswith('.gz')
@@ -795,7 +811,7 @@ def run_frame(ctx, rng, support, transport, tmp):
     frozen = freeze(cols)
     if transport.startswith('csv'):
         stem = os.path.join(tmp, 'frame')
-        given = stem + str(rng.choice(['', '.csv', '.csv.gz' if gz else '.csv']))
+        given = stem + (str(rng.choice(['', '.csv', '.csv'])) if not gz else str(rng.choice(['', '.csv', '.csv.gz', '.csv.gz', '.csv.gz'])))
         opts['name'] = given[len(stem):]
         okw, _ = guarded_write(ctx, cols, lambda: PIO.dump_df(df, given, gz=gz))
         if not okw:
@@ -1151,10 +1167,20 @@ def run_history(ctx, rng, idx, tmp):
         judge(PIO.read_sql('SELECT * from tab', db), rows[order[1]], 'sql if_exists=replace', 'df-sql')
         PIO.to_sql(dfs[order[0]], 'tab', db, if_exists='append', gz=gz)
         judge(PIO.read_sql('SELECT * from tab', db), rows[order[1]] + rows[order[0]], 'sql if_exists=append', 'df-sql')
-        f = os.path.join(tmp, 'hframe')
+        f = os.path.join(tmp, 'hframe.csv.gz' if gz else 'hframe')
         for k in order:
             PIO.dump_df(dfs[k], f, gz=gz)
-            judge(PIO.load_df(f, gz=gz), rows[k], 'csv overwritten by table %d' % k, 'df-csv')
+            if gz:
+                ctx.count('j:' + CSV_NAME)
+            try:
+                back = PIO.load_df(f, gz=gz)
+            except FileNotFoundError:
+                if not (gz and 'hframe.csv.gz.csv.gz' in os.listdir(tmp)):
+                    raise
+                ctx.ev()
+                ctx.violation(CSV_NAME, {'given': 'hframe.csv.gz', 'written': sorted(x for x in os.listdir(tmp) if x.startswith('hframe'))})
+                break
+            judge(back, rows[k], 'csv overwritten by table %d' % k, 'df-csv')
     else:
         names = [os.path.join(tmp, 'dict%d' % k) for k in range(2)]
         ds = [{'s': pair[k], 'x': k, 'n': {'s': 'text'}} if what != 'dict' else pair[k] for k in range(2)]
@@ -1275,6 +1301,153 @@ def run_alias(ctx, rng, idx, tmp):
     ctx.sample({'structure': shape, 'support': support, 'transport': transport, 'same object at several positions': True})
 
 
+# ------------------------------------------------------------------------------------------
+# members that may not share a structure: equal summaries, different interior (checklist 10)
+# ------------------------------------------------------------------------------------------
+T_MIXED = 'json:structure-with-members-on-different-configurations-accepted-and-misaligned'
+
+
+def run_reject(ctx, rng, idx, tmp):
+    """A List / Array / matrix Corr / dict list whose members agree in chain names, first and last configuration and chain
+    lengths but not in the interior.  One configuration column is stored per structure, so the writer has to refuse
+    (documented: all Obs inside a structure are defined on the same set of configurations); writing it and reading back
+    members on the wrong configurations is the failure."""
+    support = ['one', 'replicas', 'ensembles', 'mixed'][idx % 4]
+    shape = ['list', 'array', 'corrN', 'dict', 'frame-corr'][(idx // 4) % 5]
+    famA = family(ctx, rng, support, big=True)
+    famB = Family(PE, rng, support, layout=rt_io.twin_layout(rng, famA.layout), cvs=famA.cvs, cov_extreme=famA.cov_extreme, kinds=famA.kinds)
+    a1, a2, b = famA.member(), famA.member(), famB.member()
+    pos = int(rng.integers(0, 3))
+    members = [a1, a2]
+    members.insert(pos, b)                      # the odd one out sits first, in the middle or last
+    ctx.cell('reject', shape, support, pos)
+    rt_io.judged(ctx, T_MIXED)
+    try:
+        if shape == 'list':
+            x, exp = [list(members)], list(members)
+            s = JIO.create_json_string(x)
+        elif shape == 'array':
+            arr = np.empty(3, dtype=object)
+            for i, o in enumerate(members):
+                arr[i] = o
+            x = exp = arr
+            s = JIO.create_json_string(x)
+        elif shape in ('corrN', 'frame-corr'):
+            m = np.empty((2, 2), dtype=object)
+            m[0, 0], m[0, 1], m[1, 0], m[1, 1] = members[0], members[1], members[2], members[0]
+            x = exp = PE.Corr([m, m])
+            if shape == 'frame-corr':
+                import pandas as pd
+                PIO.dump_df(pd.DataFrame({'c': [x]}), os.path.join(tmp, 'rej'))
+                got = PIO.load_df(os.path.join(tmp, 'rej'))['c'][0]
+                s = None
+            else:
+                s = JIO.create_json_string(x)
+        else:
+            x = exp = {'members': list(members), 'other': 1}
+            JIO.dump_dict_to_json(x, os.path.join(tmp, 'rej'))
+            got = JIO.load_json_dict(os.path.join(tmp, 'rej'), verbose=False)
+            s = None
+        if s is not None:
+            got = JIO.import_json_string(s, verbose=False)
+    except Exception as e:
+        ctx.count('mixed_configuration_structures_refused')
+        chain, cur = [], e
+        while cur is not None and len(chain) < 6:       # pandas wraps the library's exception
+            chain.append(str(cur))
+            cur = cur.__cause__ or cur.__context__
+        ctx.require(any('same' in m or 'idl' in m for m in chain), 'json:mixed-structure-refused-with-unrelated-error', {'error': chain[:3], 'shape': shape})
+        return
+    # accepted: then every member has to come back on its own configurations
+    trial = ctx.trial()
+    ok = cmp_tree(trial, tree(got), tree(exp), Profile('json'), 'x', 'top', None)
+    if not ok:
+        ctx.violation(T_MIXED, {'shape': shape, 'position of the odd member': pos,
+                                'first differences': [v['mechanism'] for v in trial.violations[:4]]})
+    else:
+        ctx.absorb(trial)
+
+
+# ------------------------------------------------------------------------------------------
+# scale of a container: more than 10 and more than 100 members / timeslices / structures (checklist 12)
+# ------------------------------------------------------------------------------------------
+def run_bulk(ctx, rng, idx, tmp):
+    support = ['one', 'replicas', 'mixed', 'ensembles'][idx % 4]
+    shape = ['list12', 'list101', 'array11', 'array4x3', 'array103', 'corr1-T12', 'corr1-T101', 'corrN-T11', 'multi12', 'multi101',
+             'frame12'][(idx // 4) % 11]
+    fam = Family(PE, rng, support, nmin=5, nmax=7, maxens=2, mags='unit')
+    n = int(''.join(ch for ch in shape.split('-T')[-1] if ch.isdigit())) if shape not in ('array4x3',) else 12
+
+    def members(k):
+        out = [fam.member() for _ in range(k)]
+        for i, o in enumerate(out):
+            o.tag = 'member %d' % i              # positions are recognisable
+        return out
+    ctx.count('bulk_structures')
+    transport = ['string', 'file.gz', 'pickle', 'file'][(idx // 44) % 4]
+    if shape.startswith('list'):
+        x = [members(n)]
+    elif shape.startswith('array'):
+        a = np.empty(n, dtype=object)
+        for i, o in enumerate(members(n)):
+            a[i] = o
+        x = a.reshape((4, 3)) if shape == 'array4x3' else a
+    elif shape.startswith('corr1'):
+        ms = members(n)
+        und = set(int(i) for i in rng.choice(n, size=n // 4, replace=False))
+        x = PE.Corr([None if t in und else ms[t] for t in range(n)])
+        x.tag = 'T = %d' % n
+        x.prange = [n - 2, n - 1]
+    elif shape.startswith('corrN'):
+        cont = []
+        for t in range(n):
+            m = np.empty((2, 2), dtype=object)
+            m[0, 0], m[0, 1], m[1, 0], m[1, 1] = members(4)
+            cont.append(m if t != 10 else None)
+        x = PE.Corr(cont)
+    elif shape.startswith('multi'):
+        # many structures in one document, of alternating type
+        ms = members(n)
+        x = [ms[i] if i % 3 else [ms[i], ms[(i + 1) % n]] for i in range(n)]
+    else:
+        import pandas as pd
+        ms = members(12)
+        df = pd.DataFrame({'id': list(range(12)), 'c': ms})
+        gz = bool(rng.integers(0, 2))
+        ctx.cell('bulk', shape, support, 'frame')
+        if rng.random() < 0.5:
+            PIO.dump_df(df, os.path.join(tmp, 'b'), gz=gz)
+            back = PIO.load_df(os.path.join(tmp, 'b'), gz=gz)
+            famn = 'df-csv'
+        else:
+            PIO.to_sql(df, 'tab', os.path.join(tmp, 'b.sqlite'), gz=gz)
+            back = PIO.read_sql('SELECT * from tab', os.path.join(tmp, 'b.sqlite'))
+            famn = 'df-sql'
+        if ctx.require(len(back) == 12 and [int(i) for i in back['id']] == list(range(12)), famn + ':frame-shape', {'rows': len(back)}):
+            for i in range(12):
+                compare(ctx, rng, back['c'][i], ms[i], Profile(famn), 'bulk frame row %d' % i, {'bulk': shape, 'row': i})
+        return
+    ctx.cell('bulk', shape, support, transport)
+    frozen = freeze(x)
+    opts = {'bulk': shape, 'transport': transport}
+    if transport == 'pickle':
+        PE.misc.dump_object(x, 'bulk', path=tmp)
+        r = PE.misc.load_object(os.path.join(tmp, 'bulk.p'))
+        post_checks(ctx, x, frozen, r, 'pickle', same_objects_allowed=True)
+        compare(ctx, rng, r, x, P_PICKLE, 'bulk pickle', opts)
+        return
+    if transport == 'string':
+        r = JIO.import_json_string(JIO.create_json_string(x, indent=int(rng.integers(0, 2))), verbose=False)
+    else:
+        gz = transport == 'file.gz'
+        JIO.dump_to_json(x, os.path.join(tmp, 'bulk'), gz=gz)
+        r = JIO.load_json(os.path.join(tmp, 'bulk'), verbose=False, gz=gz)
+    separate = isinstance(x, list) and len(x) != 1
+    post_checks(ctx, x, frozen, r, 'json')
+    compare(ctx, rng, r, x if separate else expect_top(x), P_JSON, 'bulk ' + transport, opts, separate=separate)
+    ctx.sample({'structure': shape, 'support': support, 'transport': transport})
+
+
 def run_case(ctx, kind, idx, rng):
     with tempfile.TemporaryDirectory(prefix='vmon_C11_', dir='/var/tmp') as tmp:
         support = SUPPORTS[idx % 5]
@@ -1308,5 +1481,9 @@ def run_case(ctx, kind, idx, rng):
             run_history(ctx, rng, idx, tmp)
         elif kind == 'alias':
             run_alias(ctx, rng, idx, tmp)
+        elif kind == 'reject':
+            run_reject(ctx, rng, idx, tmp)
+        elif kind == 'bulk':
+            run_bulk(ctx, rng, idx, tmp)
         else:
             raise ValueError(kind)
